@@ -32,8 +32,8 @@ MkArgs(mp, ni, vals) ==            \* vals: [name |-> value or NoVal]
 Focus == {"ties", "quotas", "lecq"}
 Legal(mp) ==
     LET two == IF mp \in {"sm", "hr"} THEN {1} ELSE IF mp = "ha" THEN {NoVal} ELSE {NoVal, 1}
-        tq1 == IF Rich THEN Opt({0, 1, 2, 4}) ELSE Opt({0, 4})
-        tq2 == IF mp = "ha" THEN {NoVal} ELSE IF Rich THEN Opt({0, 2, 4}) ELSE Opt({4})
+        tq1 == IF Rich THEN Opt({0, 2, 5, 10, 18, 20}) ELSE Opt({0, 20})     \* twentieths: 0, 0.1, 0.25, 0.5, 0.9, 1
+        tq2 == IF mp = "ha" THEN {NoVal} ELSE IF Rich THEN Opt({0, 10, 18, 20}) ELSE Opt({20})
         sk  == IF Rich THEN Opt({1, 2, 6}) ELSE {NoVal, 6}
         X(fo)  == IF fo = "ties" THEN tq1 \X tq2 \X sk \X two
                   ELSE {<<NoVal, NoVal, NoVal, CHOOSE t \in two : t = 1 \/ two = {NoVal}>>}
@@ -65,10 +65,11 @@ Legal(mp) ==
           : n3 \in (IF mp = "spa" THEN N3s ELSE {1})} : n2 \in (IF mp = "sm" THEN {1} ELSE N2s)} : n1 \in N1s}
 
 (* single-fault perturbations of a legal vector *)
-Viol(mp) == {"numinst0", "n1_0", "pmin0", "pmin>pmax", "pmax>n2", "t1neg", "t1big"}
-            \cup (IF mp # "sm" THEN {"n2_0", "lqneg", "uq<n2", "lq>uq"} ELSE {})
-            \cup (IF mp # "ha" THEN {"t2neg", "t2big"} ELSE {})
-            \cup (IF mp = "spa" THEN {"n3_0", "luq0", "ltneg", "lt>luq", "llq>lt", "llqneg"} ELSE {})
+Viol(mp) == {"numinst0", "n1_0", "pmin0", "pmin>pmax", "pmax>n2", "t1neg", "t1big",
+             "numinst_far", "n1_far", "pmax_far", "t1_far", "pmin_far"}      \* "_far": far beyond the bound, not just past it
+            \cup (IF mp # "sm" THEN {"n2_0", "lqneg", "uq<n2", "lq>uq", "lq_far", "uq_far", "n2_far"} ELSE {})
+            \cup (IF mp # "ha" THEN {"t2neg", "t2big", "t2_far"} ELSE {})
+            \cup (IF mp = "spa" THEN {"n3_0", "luq0", "ltneg", "lt>luq", "llq>lt", "llqneg", "lt_far", "llq_far", "luq_far"} ELSE {})
 Perts(mp) == {<<"none", "">>}
              \cup (IF Perturb THEN {<<"drop", o>> : o \in Required(mp)} \cup {<<"add", o>> : o \in Inapplicable(mp)}
                                    \cup {<<"add0", o>> : o \in Inapplicable(mp) \ {"twopl", "n2", "n3", "uq", "luq"}}
@@ -90,10 +91,22 @@ Apply(a, pt) ==
       [] pt[2] = "pmin0" -> set("pmin", 0)
       [] pt[2] = "pmin>pmax" -> set("pmin", a.v["pmax"] + 1)
       [] pt[2] = "pmax>n2" -> set("pmax", n2 + 1)
-      [] pt[2] = "t1neg" -> set("t1", -1)
-      [] pt[2] = "t1big" -> set("t1", 5)
-      [] pt[2] = "t2neg" -> set("t2", -1)
-      [] pt[2] = "t2big" -> set("t2", 5)
+      [] pt[2] = "t1neg" -> set("t1", -5)
+      [] pt[2] = "t1big" -> set("t1", 25)
+      [] pt[2] = "t2neg" -> set("t2", -5)
+      [] pt[2] = "t2big" -> set("t2", 25)
+      [] pt[2] = "numinst_far" -> [a EXCEPT !.numinst = -7]
+      [] pt[2] = "n1_far" -> set("n1", -12)
+      [] pt[2] = "n2_far" -> set("n2", -12)
+      [] pt[2] = "pmin_far" -> set("pmin", -3)
+      [] pt[2] = "pmax_far" -> set("pmax", 5 * n2 + 7)
+      [] pt[2] = "t1_far" -> set("t1", 140)
+      [] pt[2] = "t2_far" -> set("t2", -60)
+      [] pt[2] = "lq_far" -> set("lq", -100)
+      [] pt[2] = "uq_far" -> set("uq", 0)
+      [] pt[2] = "lt_far" -> set("lt", a.v["luq"] + 50)
+      [] pt[2] = "llq_far" -> set("llq", LT(a) + 50)
+      [] pt[2] = "luq_far" -> set("luq", -9)
       [] pt[2] = "lqneg" -> set("lq", -1)
       [] pt[2] = "uq<n2" -> set("uq", n2 - 1)
       [] pt[2] = "lq>uq" -> set("lq", a.v["uq"] + 1)
